@@ -451,7 +451,8 @@ class Program(object):
                 os.replace(cache + ".tmp%d" % os.getpid(), cache)
             except Exception:
                 pass
-        from . import inline
+        from . import inline, canon
+        self.canonicalised = canon.canonicalise_all([j for f, j in loaded if not j.get("is_test")])
         self.inlined = 0
         for f, j in loaded:
             if not j.get("is_test"):
